@@ -1,5 +1,6 @@
 import KV.Proofs.RecoveryWal
 import KV.Proofs.RecoveryDisk
+import KV.Proofs.RecoveryAppend
 import KV.Model.Cs
 /-!
 # C05 — crash recovery: a restart at any point is consistent and never double-signs (PARTIAL)
@@ -13,6 +14,9 @@ crash image of the WAL that keeps the synced part:
 After a WAL rotation and a restart on an empty head (`#ENDHEIGHT 0` written by `OnStart`):
 `search_finds_marker_across_rotation`, `catchup_across_rotation` (every split into files), and
 `search_early_exit_ge0_counterexample` (the early exit must require a POSITIVE last marker).
+Torn tail, run on, second crash (byte-level WAL model of C15): `append_after_repair_readable`
+(after OnStart's repair everything the next life appends is read back after the surviving records)
+and `append_after_torn_tail_unreadable_counterexample` (without the truncation it is not).
 What is NOT derivable — and false of the code — is determinism of the *proposal*: `createBlock`
 reads the transaction pool and is not logged: `proposal_resign_counterexample` (defect F7).
 
@@ -246,6 +250,34 @@ theorem search_early_exit_ge0_counterexample :
     gsearch exitGe0 ([[Sum.inr 0, Sum.inl (), Sum.inr 1, Sum.inl ()]] ++ [[Sum.inr 0]]) 1
         = (none : Option (MWal Unit)) := by
   decide
+
+/-! ### torn tail → run on → second crash -/
+
+/-- **append_after_repair_readable.** Whatever bytes the first crash left in the head file, after
+`repairWalFile` (which `OnStart` runs when the catch-up meets the damage) the records the next life
+appends are decoded, by every reader, right after the records that survived - so a second crash
+cannot lose an own vote that was synced after the first restart. -/
+theorem append_after_repair_readable (c : KV.Wal.Cfg) (k : KV.Wal.RKind) (src : KV.Bytes)
+    (news : List KV.Bytes) (hmax : c.max < 4294967296)
+    (hcanon : ∀ p, c.parse p ≠ none → c.reser p = p) (hempty : c.parse [] = none)
+    (hnew : ∀ d ∈ news, KV.Wal.Valid c d) :
+    KV.Wal.decodeAll c k ((KV.Wal.repair c src).1 ++ KV.Wal.frames c news) =
+      ((KV.Wal.decodeAll c .file src).1 ++ news, .eof) :=
+  KV.Wal.append_after_repair_readable c k src news hmax hcanon hempty hnew
+
+/-- **append_after_torn_tail_unreadable_counterexample.** If the restart does NOT cut the torn
+record off (a decoder that reports it as a clean end of log), a record appended behind the fragment
+is never returned by a later read, and the repair of a later restart cuts it off. -/
+theorem append_after_torn_tail_unreadable_counterexample :
+    KV.Wal.decodeAll KV.Wal.cfgT .group
+        (KV.Wal.frames KV.Wal.cfgT [[1, 2, 3]] ++
+          ((KV.Wal.frame KV.Wal.cfgT [1, 2, 3]).take 9 ++ KV.Wal.frames KV.Wal.cfgT [[9]]))
+      = ([[1, 2, 3]], .corrupt) ∧
+    (KV.Wal.repair KV.Wal.cfgT
+        (KV.Wal.frames KV.Wal.cfgT [[1, 2, 3]] ++
+          ((KV.Wal.frame KV.Wal.cfgT [1, 2, 3]).take 9 ++ KV.Wal.frames KV.Wal.cfgT [[9]]))).1
+      = KV.Wal.frames KV.Wal.cfgT [[1, 2, 3]] :=
+  KV.Wal.append_after_torn_tail_unreadable_counterexample
 
 /-! ### F7: the proposal is not a function of the log -/
 
